@@ -1215,7 +1215,7 @@ NumType.fields = {
 
 BoolType.fields = IntType.fields = {
     # TODO: Finish these
-    "bit_length": FunctionType("bit_length", definition=IntType)
+    "bit_length": FunctionType("bit_length", returns=IntType)
 }
 
 FloatType.fields = {
